@@ -122,9 +122,9 @@ Slacks == 0 .. 4
 BuildSound == phase # "input" => \A sl \in Slacks : BuildOK(desc, O, max, sl, enabled, res)
 MsgBound == (phase # "input" /\ enabled) => \A pw \in 1 .. 5 : MsgLen(res, O, pw) <= max
 (* the allowed results form an interval of prefix lengths (used by the replay driver) *)
-AllowedInterval == phase = "input" => \A sl \in Slacks :
+AllowedInterval == phase = "input" => \A sl \in {0, 4} :
     LET ks == AllowedK(desc, O, max, sl) IN ks # {} => ks = Min(ks) .. Max(ks)
-FastIsAllowed == phase = "input" => \A sl \in Slacks :
+FastIsAllowed == phase = "input" => \A sl \in {0, 4} :
     AllowedKFast(JCum(desc), Len(desc), O, max, sl) = AllowedK(desc, O, max, sl)
 (* the start-up announcement obeys the bound as well (a disabled responder keeps quiet) *)
 AnnounceBounded == (last.kind = "start" /\ last.announced # {}) => last.len <= max
